@@ -152,3 +152,36 @@ Section Facts.
     destruct op; unfold cmp_method, reflected, q_le_derived, q_gt_derived, q_ge_derived; rewrite ?E1, ?E2; reflexivity.
   Qed.
 End Facts.
+
+(* ---- comparisons when no conversion exists (C07) ---- *)
+Section NoConversion.
+  Let conv : unit3 -> unit3 -> option Q := fun _ _ => None.
+
+  Lemma q_cmp_no_conversion lt a b : ufac (qu a) <> ufac (qu b) -> q_cmp conv lt a (VQty b) = NotImpl.
+  Proof.
+    intros H. unfold q_cmp. destruct (negb (dim_eqb (qu a) (qu b))); [reflexivity|].
+    cbv zeta. unfold unprefixed. cbn [qu qm qk].
+    assert (E : ukey_eqb (MkU pid (ufac (qu a)) (udim (qu a))) (MkU pid (ufac (qu b)) (udim (qu b))) = false).
+    { unfold ukey_eqb, feqb. cbn [upre ufac]. rewrite (bool_decide_eq_false_2 (ufac (qu a) = ufac (qu b))) by exact H.
+      apply andb_false_r. }
+    rewrite E. unfold in_unit. cbn [qu]. destruct (negb _); reflexivity.
+  Qed.
+
+  Theorem eq_no_conversion a b : ufac (qu a) <> ufac (qu b) ->
+    binop conv OpEq (VQty a) (VQty b) = Bool false.
+  Proof.
+    intros H. unfold binop. cbn [lmethod rmethod q_eq].
+    pose proof (q_cmp_no_conversion false a b H) as E1.
+    assert (E2 : q_cmp conv false b (VQty a) = NotImpl) by (apply q_cmp_no_conversion; congruence).
+    unfold lmethod, rmethod. rewrite E1, E2. reflexivity.
+  Qed.
+
+  Theorem order_no_conversion op a b : ufac (qu a) <> ufac (qu b) ->
+    compare conv op (VQty a) (VQty b) = Err ETypeError.
+  Proof.
+    intros H. unfold compare.
+    assert (E1 : q_lt conv a (VQty b) = NotImpl) by (apply q_cmp_no_conversion; exact H).
+    assert (E2 : q_lt conv b (VQty a) = NotImpl) by (apply q_cmp_no_conversion; congruence).
+    destruct op; unfold cmp_method, reflected, q_le_derived, q_gt_derived, q_ge_derived; rewrite ?E1, ?E2; reflexivity.
+  Qed.
+End NoConversion.
